@@ -75,7 +75,7 @@ def gen_case(rng, idx):
 
 
 def generate(rng, tier):
-    n = dict(quick=1500, thorough=60000, search=30000)[tier]
+    n = dict(quick=1500, thorough=400000, search=30000)[tier]
     cases = [gen_case(rng.fork(), i) for i in range(n)]
     if tier != 'quick':
         # bounded universe: 3 keys x 2 origins x 4 stamps, <= 2 ops per replica, all pairs, both merge orders
